@@ -40,6 +40,27 @@ class Has:
         return has_all(ls, self.pats)
 
 
+class Direct:
+    """The branch condition is *directly* the result of a call matching one of `calls` (seen
+    only through negation, `?`, Result/Option combinators and transparent wrappers - not through
+    any other function), whose receiver/first argument's slice matches `args`."""
+
+    def __init__(self, calls, args=(), name=None):
+        self.calls = calls
+        self.args = args
+        self.name = name or "direct(%s on %s)" % (calls, args)
+
+    def call_pats(self):
+        return []
+
+    def matches_expr(self, e, ctx, env=None):
+        for node, _neg in bool_nodes(e):
+            if node[0] == "call" and any(glob(g, node[1]) or glob(g, node[2]) for g in self.calls):
+                if not self.args or (node[3] and has_all(ctx.leaves(node[3][0], env), self.args)):
+                    return True
+        return False
+
+
 class Cmp:
     """Operand-separated comparison: the branch condition is (the result of) a comparison one
     of whose operands derives from every pattern in A and the other from every pattern in B.
